@@ -12,6 +12,4 @@ CONSTANTS
   SimK = 0
 CONSTRAINT LevelBound
 VIEW view
-INVARIANT TreeOK
-INVARIANT EventsOK
 INVARIANT Fresh
